@@ -212,3 +212,36 @@ def r20_d(ctx):
                                         'the item queue is written outside the fill step of __next__ (or not from the '
                                         'iterator): items already handed out can change or vanish', line=site.lineno))
     return rr
+
+
+def r20_e(ctx):
+    """the tests are derived from the right items: hasNext(n) from the single item n-1 ahead, startswith/endswith
+    from the range of len(s) items after/before the cursor"""
+    m = model(ctx)
+    rr = RuleResult('R20.e', 'hasNext(n) is the truth of the single item n-1 ahead (an item count, not a length of joined '
+                    'text); startswith/endswith look at exactly len(s) items after/before the cursor', floor=3)
+    pn = Aff.sym('p:n')
+    fd = _fd(m, 'hasNext')
+    exits, raises = m.solve('hasNext', ('int',))
+    for e in exits:
+        ok = e.ret in (('boolof', ('elem', I0 + pn - Aff(1))), ('boolof', ('const', None)))
+        rr.ob(ok, {'method': 'hasNext(n)', 'derived_from': repr(e.ret)})
+        if not ok:
+            rr.fail(Finding('R20.e', 'utils', fd.qual, 'Buffer.hasNext(n) derived from %s' % (e.ret,),
+                            'hasNext(n) is not the existence of the n-th item ahead: with multi-character items it can '
+                            'claim items that do not exist (or deny ones that do)', line=fd.node.lineno))
+    for name, lo, hi in (('startswith', I0, I0 + Aff.sym('len(p:s)')), ('endswith', I0 - Aff.sym('len(p:s)'), I0)):
+        fd = _fd(m, name)
+        ok = False
+        for n in ast.walk(fd.node):
+            if isinstance(n, ast.Call) and isinstance(n.func, ast.Attribute) and n.func.attr == name and isinstance(n.func.value, ast.Call) \
+                    and isinstance(n.func.value.func, ast.Attribute) and n.func.value.func.attr == 'peek' and norm(n.func.value.func.value) == 'self':
+                a = n.func.value.args[0] if n.func.value.args else None
+                p = fd.params()[1]
+                want = ('(0, len(%s))' % p) if name == 'startswith' else ('(-len(%s), 0)' % p)
+                ok = a is not None and norm(a) == want and norm(n.args[0]) == p
+        rr.ob(ok, {'method': name, 'range': 'len(s) items %s the cursor' % ('after' if name == 'startswith' else 'before')})
+        if not ok:
+            rr.fail(Finding('R20.e', 'utils', fd.qual, 'Buffer.%s range' % name, 'Buffer.%s does not compare the %d..len(s) '
+                            'items next to the cursor with s' % (name, 0), line=fd.node.lineno))
+    return rr
